@@ -9,7 +9,8 @@
 //	              ndjson for validation by IntervalTrace.tla (direction B)
 //	-tracemod M -tracerem R   record only every M-th case (those with index % M == R)
 //	-cap N        at most N lines per disagreement class (all are counted in stats.class_counts)
-//	-corrupt N    self-test of the binding: flip one expectation in case N (must be reported)
+//	-corrupt N    self-test of the binding: the first case with index >= N that agrees with the model is replayed
+//	              again with one expectation damaged (must be reported; stats.corrupted_case says which)
 package main
 
 import (
@@ -85,6 +86,7 @@ var (
 	progress   atomic.Int64
 	current    atomic.Pointer[tcase]
 	capPer     = 200
+	corrupted  = int64(-1)
 )
 
 func main() {
@@ -141,11 +143,7 @@ func main() {
 			fmt.Fprintln(os.Stderr, "harness: case shape")
 			os.Exit(2)
 		}
-		if n == *corrupt {
-			// binding self-test: damage one expectation of the last step
-			last := &c.Steps[len(c.Steps)-1]
-			last.Get[c.Hist[len(c.Hist)-1][0]+1] = append([]int64{99}, last.Get[c.Hist[len(c.Hist)-1][0]+1]...)
-		}
+		before := nMismatch
 		n++
 		current.Store(&c)
 		progress.Add(1)
@@ -154,10 +152,20 @@ func main() {
 		vs := variants(c.MaxP)
 		k := 1 + int((uint64(n)*2654435761+uint64(*seed)*40503)%uint64(len(vs)-1))
 		runVariant(&c, vs[k], false)
+		if *corrupt >= 0 && corrupted < 0 && n-1 >= *corrupt && nMismatch == before {
+			// binding self-test: the first case from index -corrupt on that agrees with the model is replayed once
+			// more with one expectation of its last step damaged; that must produce a disagreement
+			corrupted = n - 1
+			last := &c.Steps[len(c.Steps)-1]
+			at := c.Hist[len(c.Hist)-1][0] + 1
+			last.Get = slices.Clone(last.Get)
+			last.Get[at] = append([]int64{99}, last.Get[at]...)
+			runVariant(&c, vs[0], false)
+		}
 	}
 	out.Flush()
 	st := map[string]any{"cases": n, "checks": nChecks, "mismatches": nMismatch, "variants": nVariants, "class_counts": classCount,
-		"trace_records": traceCount}
+		"trace_records": traceCount, "corrupted_case": corrupted}
 	_ = enc.Encode(map[string]any{"stats": st})
 }
 
